@@ -25,7 +25,7 @@ func buildInstrumented(variant, scratch string) (worker string, extraEnv []strin
 	if err = instr.BumpGoVersion(copyDir, "1.23"); err != nil {
 		return
 	}
-	rep, e := instr.Instrument(copyDir, []string{"pkg/yang", "pkg/indent", "."}, variant == "order", variant == "sched")
+	rep, e := instr.Instrument(copyDir, []string{"pkg/yang", "pkg/indent", "pkg/yangentry", "."}, variant == "order", variant == "sched")
 	if e != nil {
 		return "", nil, "", fmt.Errorf("instrumenting: %v", e)
 	}
